@@ -462,8 +462,16 @@ def drive_cases(
 def _shard_entry(args: Tuple[Any, ...]) -> Dict[str, Any]:
     fn, pid, tier, seed, level, k, n, extra = args
     try:
+        from harness import tmpfiles
+
+        del tmpfiles._DIRS[:]  # directories inherited from the parent belong to the parent
         rec = Recorder(pid, tier, seed, level)
-        fn(rec, k, n, *extra)
+        try:
+            fn(rec, k, n, *extra)
+        finally:
+            from harness import tmpfiles
+
+            tmpfiles.cleanup()
         return rec.state()
     except HarnessError as exc:
         return {"__harness_error__": f"shard {k}: {exc}"}
